@@ -16,6 +16,7 @@ var propTable = map[string]propFn{
 	"C04": checkC04,
 	"C05": checkC05,
 	"C06": checkC06,
+	"C07": checkC07,
 	"C10": checkC10,
 	"C11": checkC11,
 	"C12": checkC12,
